@@ -7,6 +7,8 @@ CONSTANTS
   AllowRelate = TRUE
   AllowQueryX = TRUE
   AllowSweep = FALSE
+  CopyModes = {}
+  UnregisteredModes = {}
   Hist = TRUE
   PopIdOfNone = FALSE
   StaleRelationIndex = FALSE
